@@ -3,7 +3,6 @@ from .. import backtest
 from ..oracles.ledger import LedgerMonitor
 from ..oracles.lifecycle import LifecycleMonitor
 from . import common, lifecycle_common
-from .common import sample_view, shrink  # noqa
 
 ID = "C03"
 LEVEL = "exploration"
@@ -11,16 +10,45 @@ TECHNIQUE = "deterministic simulation; every status change recorded at BaseOrder
 BUDGET = {"quick": {"runs": 10000, "wall": 45}, "thorough": {"runs": 500000, "wall": 900}}
 RULE = "one evaluation = one seeded backtest: requests (incl. illegal ones) issued at random instants relative to fills, suspension lapses, removals, in-play turns and closure with latencies drawn so that responses land before/after the market event; non-trivial = an illegal request was attempted or a response was applied after the order had completed for another reason; distinct = distinct scenario digests"
 ASSUMPTIONS = [
-    "World A (simulated exchange) only in this version of the check; the live-exchange double facet is covered by the World B checks (C11/C12) where noted in DESIGN.md",
+    "75% World A backtests (simulated exchange), 25% World B live sessions against the exchange double (legitimate replies and injected API faults, no restarts)",
     "observation points: every status change, every request, every package and its execution, end of every update",
 ]
-COMPONENTS = common.COMPONENTS_A
+from . import C11 as _c11
+
+COMPONENTS = dict(common.COMPONENTS_A, world_B=_c11.COMPONENTS)
 MONITORS = [LedgerMonitor, LifecycleMonitor]
 
 
 def generate(rng, i, tier):
+    if rng.random() < 0.25:
+        from .. import livegen
+
+        sc = livegen.gen_live(rng, "C12" if rng.random() < 0.5 else "C11")
+        sc.pop("crash_at", None)
+        sc.pop("foreign_bets", None)
+        return sc
     return lifecycle_common.scenario(rng, ID)
 
 
 def execute(scenario):
+    if scenario.get("world") == "B":
+        from .. import live
+
+        return live.run_scenario(scenario, [LifecycleMonitor], owner=ID)
     return backtest.run_scenario(scenario, MONITORS, owner=ID)
+
+
+def sample_view(scenario):  # noqa: F811
+    if scenario.get("world") == "B":
+        from . import C11
+
+        return C11.sample_view(scenario)
+    return common.sample_view(scenario)
+
+
+def shrink(scenario, test, deadline):  # noqa: F811
+    if scenario.get("world") == "B":
+        from . import C11
+
+        return C11.shrink_live(scenario, test, deadline)
+    return common.shrink(scenario, test, deadline)
